@@ -147,6 +147,28 @@ pub fn compaction_input_histories() -> Vec<History> {
             });
         }
     }
+    // the second table of the parent level is opened lazily, after an output has been closed, and
+    // everything that is merged after that point is dropped (the older version of the first key;
+    // a tombstone that reaches the base level): a failure of that open meets a compaction that
+    // has finished outputs, no open output and nothing left to write - and loses the table's keys
+    // if nobody looks at the input error any more
+    v.push(History {
+        name: "compaction-inputs-late-parent-table-then-only-dropped-entries/T1p".to_string(),
+        cfgs: cfgs(&["T1p"]),
+        keys: vec![b"c".to_vec(), b"d".to_vec(), b"e".to_vec(), b"f".to_vec()],
+        ops: vec![Put(0, 0), Flush, Batch(vec![(2, true), (3, true)]), Flush, Batch(vec![(0, true), (3, false)]), Flush, Reopen(0), Compact(None, None), Reopen(0)],
+    });
+    // (with one-byte blocks an output is closed once it holds two entries: the variant with two
+    // kept entries in front of the late table has no open output when that table fails to open)
+    v.push(History {
+        name: "compaction-inputs-late-parent-table-after-a-closed-output/T1p".to_string(),
+        cfgs: cfgs(&["T1p"]),
+        keys: vec![b"c".to_vec(), b"d".to_vec(), b"e".to_vec(), b"f".to_vec()],
+        // (tables [d] and [e,f] two levels down; [c, d, -f] above them: c and the new d are kept
+        // and close an output, the old d is dropped, then the table [e,f] is opened, then -f is
+        // dropped at the base level)
+        ops: vec![Put(1, 0), Flush, Batch(vec![(2, true), (3, true)]), Flush, Batch(vec![(0, true), (1, true), (3, false)]), Flush, Reopen(0), Compact(None, None), Reopen(0)],
+    });
     v.push(History {
         name: "compaction-inputs-multi-file-levels/T300".to_string(),
         cfgs: cfgs(&["T300"]),
